@@ -6,7 +6,10 @@
   every run; `cfg_good` is the proof obligation that breaks when a subtraction list, the field
   order, a slice bound, the clipping of negative deltas, a factor, a rounding digit, the clamp or
   the use of the four `_last_*` dictionaries changes. The `max(1, all_delta)` guard is *not* part
-  of `Good`: the theorems about it are stated for both values of `tpMaxOne`.
+  of `Good`: the theorems about it are stated for both values of `tpMaxOne`; the value the code
+  has NOW is pinned by its own obligation `cfg_tp_max_one` (round 3), which closes the finding:
+  `C07_tp_sum_code : ¬ C07_tp_sum_Full cfg`. Further obligations of round 3 (section I):
+  `cfg_blocking_order`, `cfg_clock_and_timer`, `cfg_proc_shape`.
 -/
 import PsutilModel.Proofs.C07Parse
 import PsutilModel.Proofs.C07Hist
@@ -270,6 +273,20 @@ theorem C07_tp_sum_counterexample (c : Cfg) (hg : c.Good) (hm : c.tpMaxOne = tru
     shareExact, htot, ea] at h2
   norm_num [r2, r20, clamp100] at h2
 
+/-- proof obligation on the translator's fact `tpMaxOne` (round 3, audit item 4): the code as it is divides by
+    `max(1, all_delta)`. The known finding C07-tp-subsecond rests on this value; a repair of the guard
+    (`100.0 / all_delta if all_delta > 0 else 0.0`, for which `C07_tp_sum_fixed` is already proved) stops this
+    theorem building — and with it `C07_tp_sum_code` — so the finding cannot silently outlive its cause. -/
+theorem cfg_tp_max_one : cfg.tpMaxOne = true := by decide
+
+/-- **C07_tp_sum_code.** The closed statement for the code as it is NOW: "the shares add up to 100 whenever
+    any time elapsed, however short" is FALSE of `cpu_times_percent()` (witness: 0.1 s of CPU time, reported as
+    shares of one second; known finding C07-tp-subsecond, replayed on the real code on every run). What does
+    hold for the current code is `C07_tp_sum_partial` (elapsed CPU time ≥ 1 s: the non-guest shares add up to
+    100 ± 8·0.05 by `C07_tp_sum_rounded`). -/
+theorem C07_tp_sum_code : ¬ C07_tp_sum_Full cfg :=
+  C07_tp_sum_counterexample cfg cfg_good cfg_tp_max_one
+
 /-- **C07_per_cpu_separately.** With `percpu=True` entry `k` of the result is `calculate()` of
     the two `k`-th samples and of nothing else; the result is as long as the shorter list. -/
 theorem C07_per_cpu_separately {β : Type} (f : Sample → Sample → PRes β) (as bs : List Sample)
@@ -282,8 +299,8 @@ theorem C07_per_cpu_separately {β : Type} (f : Sample → Sample → PRes β) (
     DIFFERENT lengths (a CPU was added or removed between them): one percentage per CPU present in
     both samples, position by position — entry `k` from the two `k`-th records and from nothing
     else — and nothing for the CPUs present in only one of them. No entry is ever computed from
-    records at two different positions (CPU numbers are positions in the kernel's list; a kernel
-    that renumbers is outside the model). -/
+    records at two different positions. (Positions versus the kernel's own CPU NUMBERS: section F,
+    `C07_percpu_by_number_partial` / `C07_percpu_by_number_counterexample`.) -/
 theorem C07_percpu_any_lengths (vlen tck : Nat) (os ns : List Times) :
     calcStored ⟨cfg, vlen, tck⟩ .percent (.many (os.map (Times.expose (nfOf vlen))))
         (.many (ns.map (Times.expose (nfOf vlen))))
@@ -567,7 +584,9 @@ theorem C07_proc_percent (tck : Nat) (k : Option Int) (h : List PCall) (p : PCal
   unfold pstep pexpected pexpectedExact
   by_cases hn : p.negative = true
   · simp [hn]
-  · simp only [hn, Bool.false_eq_true, if_false, hp]
+  by_cases hv : p.vanishes = true
+  · simp [hn, hv]
+  · simp only [hn, hv, Bool.false_eq_true, if_false, hp]
     by_cases hb : p.blocking = true
     · simp only [hb, if_true]
       cases p.timer with
@@ -617,7 +636,9 @@ theorem C07_proc_percent_fixed (c : Cfg) (hg : c.Good) (hs : c.procScaleDelta = 
   unfold pstep pexpected pexpectedExact
   by_cases hn : p.negative = true
   · simp [hn]
-  · simp only [hn, Bool.false_eq_true, if_false]
+  by_cases hv : p.vanishes = true
+  · simp [hn, hv]
+  · simp only [hn, hv, Bool.false_eq_true, if_false]
     by_cases hb : p.blocking = true
     · simp only [hb, if_true]
       cases p.timer with
@@ -657,17 +678,17 @@ theorem C07_proc_percent_fixed (c : Cfg) (hg : c.Good) (hs : c.procScaleDelta = 
 theorem C07_proc_percent_counterexample (c : Cfg) (hg : c.Good) (hs : c.procScaleDelta = false) :
     ¬ C07_proc_percent_Full c := by
   intro hfull
-  have h1 := hfull 100 [⟨0, none, some 2, [100], [(0, 0)]⟩] ⟨0, none, some 1, [101], [(100, 0)]⟩
-  have hl : (pstep c 100 (prunAll c 100 PSt.init [⟨0, none, some 2, [100], [(0, 0)]⟩])
-      ⟨0, none, some 1, [101], [(100, 0)]⟩).2 = .val (roundN 1 (-(100 : ℚ) / 99)) := by
-    simp only [prunAll, pstep, PCall.negative, PCall.blocking, PSt.init, PSt.set, numCpus, procStamp,
+  have h1 := hfull 100 [⟨0, none, some 2, [100], [(0, 0)], none⟩] ⟨0, none, some 1, [101], [(100, 0)], none⟩
+  have hl : (pstep c 100 (prunAll c 100 PSt.init [⟨0, none, some 2, [100], [(0, 0)], none⟩])
+      ⟨0, none, some 1, [101], [(100, 0)], none⟩).2 = .val (roundN 1 (-(100 : ℚ) / 99)) := by
+    simp only [prunAll, pstep, PCall.negative, PCall.blocking, PCall.vanishes, PSt.init, PSt.set, numCpus, procStamp,
       hs, procFinish, hg.procFactor, hg.procDigits, procSecs]
     norm_num
     simp only [pset_same]
     norm_num
-  have hr : pexpected 100 [⟨0, none, some 2, [100], [(0, 0)]⟩] ⟨0, none, some 1, [101], [(100, 0)]⟩
+  have hr : pexpected 100 [⟨0, none, some 2, [100], [(0, 0)], none⟩] ⟨0, none, some 1, [101], [(100, 0)], none⟩
       = .val (round1 100) := by
-    simp only [pexpected, pexpectedExact, PCall.negative, PCall.blocking, pprev, pprevStep, ptaken,
+    simp only [pexpected, pexpectedExact, PCall.negative, PCall.blocking, PCall.vanishes, pprev, pprevStep, ptaken,
       List.foldl, procExact]
     norm_num
   rw [hl, hr] at h1
@@ -681,10 +702,10 @@ theorem C07_proc_percent_counterexample (c : Cfg) (hg : c.Good) (hs : c.procScal
 /-- **C07_proc_first_call_zero.** The first non-blocking call on an object returns 0.0. -/
 theorem C07_proc_first_call_zero (tck : Nat) (s : PSt) (p : PCall) (t : Rat) (u st : Nat)
     (ts : List Rat) (us : List (Nat × Nat))
-    (hfirst : s p.obj = none) (hn : p.negative = false) (hb : p.blocking = false)
+    (hfirst : s p.obj = none) (hn : p.negative = false) (hb : p.blocking = false) (hv : p.vanishes = false)
     (ht : p.timer = t :: ts) (hu : p.times = (u, st) :: us) :
     (pstep cfg tck s p).2 = .val 0 := by
-  simp [pstep, hn, hb, ht, hu, hfirst]
+  simp [pstep, hn, hb, hv, ht, hu, hfirst]
 
 /-- **C07_proc_negative_interval.** Negative interval → ValueError, nothing remembered. -/
 theorem C07_proc_negative_interval (tck : Nat) (s : PSt) (p : PCall) (i : Rat)
@@ -950,10 +971,25 @@ theorem C07_foreign_token_raises (tck : Nat) (htck : 0 < tck) (nf : Nat) (data :
     cpuTimes cfg nf tck data = .error .valueError :=
   (C07_valueError_exactly_when tck htck nf data).mpr ⟨t, ht, foreignTok_not_digitTok t hf⟩
 
-/-- **C07_leading_zeros.** Leading zeros do not change a token's value (`007` is 7, as for `float()`);
-    such tokens are digit strings outside the kernel grammar. -/
-theorem C07_leading_zeros (t : Bytes) (hne : t ≠ []) : digitVal (48 :: t) = digitVal t :=
-  digitVal_leading_zero t hne
+/-- **C07_leading_zeros.** Leading zeros do not change a DIGIT STRING's value (`007` is 7, as for `float()`):
+    `0` in front of a digit string is a digit string again (outside the kernel grammar) with the same value.
+    (`digitVal` defaults to 0 outside the digit strings, so the equation alone would also hold — for the
+    default's sake — for `0x` / `x`; the hypothesis and the first conjunct keep the claim inside the class.) -/
+theorem C07_leading_zeros (t : Bytes) (hd : isDigitTok t = true) :
+    isDigitTok (48 :: t) = true ∧ isKernelTok (48 :: t) = false ∧ digitVal (48 :: t) = digitVal t := by
+  have hne : t ≠ [] := by
+    intro h
+    subst h
+    simp [isDigitTok] at hd
+  refine ⟨?_, ?_, digitVal_leading_zero t hne⟩
+  · simp only [isDigitTok, List.isEmpty_cons, Bool.not_false, Bool.true_and, List.all_cons] at hd ⊢
+    have h48 : isDigit 48 = true := by decide
+    simp only [h48, Bool.true_and]
+    simp only [Bool.and_eq_true, Bool.not_eq_true'] at hd
+    exact hd.2
+  · cases t with
+    | nil => exact absurd rfl hne
+    | cons c cs => simp [isKernelTok]
 
 /-! ## H. a blocking call is a sample like any other -/
 
@@ -980,6 +1016,70 @@ theorem C07_blocking_sample_is_remembered (vlen tck : Nat) (h : List Call) (b c 
     transcribes and `C07_blocking_sample_is_remembered` is about; a blocking branch that returns
     without filing its post-sleep sample stops this theorem building -/
 theorem cfg_blocking_stores : Gen.C07.blockingStores = true := by decide
+
+/-! ## I. round 3 (audit-driven): what a blocking call does in which ORDER, which clock, which divisor -/
+
+/-- proof obligation on the facts `blockingBodies` / `sleepSites` (audit item 1): in each of the four branches of
+    `cpu_percent` / `cpu_times_percent` the `if blocking:` body is exactly "take the first sample, THEN
+    `time.sleep(interval)`" (the second sample is the store that follows the `if`, `cfg_blocking_stores`), in
+    `Process.cpu_percent` it is "clock, process times, `time.sleep(interval)`, clock, process times"; and these
+    five are the only calls of a `sleep` in the three functions. Sleeping BEFORE the first sample, sleeping a
+    constant, or an extra sleep elsewhere stops this theorem building. The model has no clock: `Call.reads` /
+    `PCall.timer` are what the file / the clock hold at the successive reads, and the harness makes them a
+    function of the recorded sleep (the second snapshot is served only after `time.sleep(interval)` was really
+    called with the interval) and compares the event order `read, sleep(interval), read` on every call. -/
+theorem cfg_blocking_order :
+    Gen.C07.blockingBodies =
+      [["t1 = cpu_times()", "time.sleep(interval)"],
+       ["tot1 = cpu_times(percpu=True)", "time.sleep(interval)"],
+       ["t1 = cpu_times()", "time.sleep(interval)"],
+       ["tot1 = cpu_times(percpu=True)", "time.sleep(interval)"],
+       ["st1 = _timer()", "pt1 = self._proc.cpu_times()", "time.sleep(interval)", "st2 = _timer()",
+        "pt2 = self._proc.cpu_times()"]] ∧
+    Gen.C07.sleepSites =
+      ["cpu_percent: time.sleep(interval)", "cpu_percent: time.sleep(interval)",
+       "cpu_times_percent: time.sleep(interval)", "cpu_times_percent: time.sleep(interval)",
+       "Process.cpu_percent: time.sleep(interval)"] := by
+  constructor <;> decide
+
+/-- proof obligation on the facts `clockTicksDef` / `timerDef` (audit items 3 and 6): the divisor of every
+    counter, `_pslinux.CLOCK_TICKS`, is bound exactly once, to `os.sysconf("SC_CLK_TCK")` (the kernel's USER_HZ;
+    the harness compares the imported value with the kernel's own AT_CLKTCK on every run and varies the patched
+    value per scenario, so `tck` of the theorems is exercised at 1, 100, 250, 300, 1000, 1024), and the wall clock
+    of `Process.cpu_percent`, `psutil._timer`, is bound exactly once, to `time.monotonic` (with the `time.time`
+    fallback of the `getattr`). A hard-coded 100, `time.process_time` or `time.time` stops this theorem building. -/
+theorem cfg_clock_and_timer :
+    Gen.C07.clockTicksDef = ["os.sysconf('SC_CLK_TCK')"] ∧
+    Gen.C07.timerDef = ["getattr(time, 'monotonic', time.time)"] := by
+  constructor <;> decide
+
+/-- proof obligation on the facts `procHandlers` / `procStores` / `shapeMissing` (audit items 5 and 6): the only
+    exception `Process.cpu_percent` catches itself is ZeroDivisionError (a vanished process is NOT turned into
+    0.0: `C07_proc_vanished_raises`); the two attributes are stored in the first-call branch and after the
+    arithmetic, nowhere else (deleting one of the two occurrences changes this list); no fixed statement shape
+    is missing. -/
+theorem cfg_proc_shape :
+    Gen.C07.procHandlers = ["ZeroDivisionError"] ∧
+    Gen.C07.procStores =
+      ["if not (blocking): if st1 is None or pt1 is None: self._last_sys_cpu_times = st2",
+       "if not (blocking): if st1 is None or pt1 is None: self._last_proc_cpu_times = pt2",
+       "self._last_sys_cpu_times = st2", "self._last_proc_cpu_times = pt2"] ∧
+    Gen.C07.shapeMissing = [] := by
+  refine ⟨?_, ?_, ?_⟩ <;> decide
+
+/-- **C07_proc_vanished_raises** (characterisation, beyond the statement). When the process is gone at one of
+    the reads of `/proc/<pid>/stat` a call really performs (the only read of a non-blocking call; the read before
+    or the read after the sleep of a blocking call) `Process.cpu_percent` raises NoSuchProcess and remembers
+    NOTHING: the object's previous sample stays, so by `C07_proc_percent_code` (whose histories include such
+    calls) a later successful call is still measured from the last call that did sample. -/
+theorem C07_proc_vanished_raises (tck : Nat) (s : PSt) (p : PCall) (hn : p.negative = false)
+    (hv : p.vanishes = true) : pstep cfg tck s p = (s, .exc .noSuchProcess) := by
+  simp [pstep, hn, hv]
+
+/-- a vanishing call exists in both forms (non-vacuity of `C07_proc_vanished_raises`) -/
+example : (⟨0, none, some 2, [1], [], some 0⟩ : PCall).vanishes = true ∧
+    (⟨0, some 1, some 2, [1, 2], [(0, 0)], some 1⟩ : PCall).vanishes = true ∧
+    (⟨0, none, some 2, [1], [(0, 0)], some 1⟩ : PCall).vanishes = false := by decide
 
 /-! ### non-vacuity of the second extension round -/
 
